@@ -9,6 +9,10 @@ fallback = {  # changes whose violation is only observable through another prope
  "C09-w4m2": ["C15"], "C16-w4m2": ["C15"], # the same: package-level scratch buffer, shared prototype message
  "C10-w4m1": ["C14"],                       # read deadline not armed afresh per call (C14's deadline oracle)
  "C10-w4m3": ["C14"], "C13-w4m1": ["C14"],  # read fault while the writer is blocked in a deadline-less write: no close event (C14)
+ "C01-w5m1": ["C20"],                       # a telemetry-log writer change (stale bytes after a refused entry): C20's format oracle
+ "C02-w5m2": ["C15"], "C06-w5m2": ["C15"],  # package-level scratch buffers: data races
+ "C13-w5m2": ["C12", "C14"],                # the same change as C12-w5m1 (transport closed after waiting for the writer on the read-error path)
+ "C15-w5m2": ["C11"],                       # writer not awaited after a read error: two writers on one custom transport (C11 whole-frames)
 }
 pref = sys.argv[1] if len(sys.argv) > 1 else ""
 out = {}
